@@ -50,4 +50,6 @@ var props = map[string]propSpec{
 		requiredProbes: []string{"transient-end", "final-end", "reopened-after-transient-end", "repeated-transient-end-same-vb", "client-stopped-after-last-final-end", "finite-completion", "active-streams-judged", "end-cause:socket-closed", "five-reopen-failures"}},
 	"C07": {level: "exploration", quickRuns: 2000, thoroughRuns: 50000, runLimit: 30 * time.Second,
 		requiredProbes: []string{"event-arrived-before-its-coverage", "event-waited-at-the-gate", "wake-up-judged", "threshold-gauge-judged", "close-with-rollback-mitigation"}},
+	"C19": {level: "fault_enumeration", quickRuns: 4000, thoroughRuns: 100000, runLimit: 20 * time.Second,
+		requiredProbes: []string{"five-consecutive-failures", "stop:during-ping", "stop:during-retry-wait", "stop:between-rounds", "repeated-stop", "repeated-start"}},
 }
